@@ -74,6 +74,17 @@ var (
 	conform    = flag.Bool("conformance", false, "run the translator-validation set only")
 )
 
+// outDir is where evidence/ and replays/ are written: the verification
+// directory itself, unless VERIF_OUT redirects it (mutation testing runs the
+// checks against scratch copies of the repository without touching the
+// committed evidence).
+func outDir() string {
+	if v := os.Getenv("VERIF_OUT"); v != "" {
+		return v
+	}
+	return *verifDir
+}
+
 func envOr(k, d string) string {
 	if v := os.Getenv(k); v != "" {
 		return v
@@ -195,7 +206,11 @@ type evidence struct {
 }
 
 func loadProp(id string) (*propCfg, error) {
-	b, err := os.ReadFile(filepath.Join(*verifDir, "harness", "registry.json"))
+	regPath := filepath.Join(*verifDir, "harness", "registry.json")
+	if v := os.Getenv("VERIF_REGISTRY"); v != "" {
+		regPath = v // debugging: an edited copy of the registry (never used by a registered command)
+	}
+	b, err := os.ReadFile(regPath)
 	if err != nil {
 		return nil, err
 	}
@@ -250,7 +265,7 @@ func run() int {
 		fmt.Fprintf(os.Stderr, "loaded + SSA in %.1fs\n", loadT.Seconds())
 	}
 
-	if old, _ := filepath.Glob(filepath.Join(*verifDir, "replays", *prop, "*-"+*tier+"-*.json")); len(old) > 0 && *only == "" {
+	if old, _ := filepath.Glob(filepath.Join(outDir(), "replays", *prop, "*-"+*tier+"-*.json")); len(old) > 0 && *only == "" {
 		for _, f := range old {
 			os.Remove(f)
 		}
@@ -391,10 +406,10 @@ func run() int {
 				}
 			}
 			for n, v := range allVio {
-				path := filepath.Join(*verifDir, "replays", *prop, fmt.Sprintf("%s-%s-%d.json", v.Harness, *tier, n))
+				path := filepath.Join(outDir(), "replays", *prop, fmt.Sprintf("%s-%s-%d.json", v.Harness, *tier, n))
 				ok, detail := rp.replay(v, path)
 				rec := map[string]interface{}{"signature": v.Signature(), "kind": v.Kind, "label": v.Label, "msg": v.Msg,
-					"site": v.Site, "tags": v.Tags, "replay": path, "reproduced_natively": ok, "native": detail, "stack": v.Stack}
+					"site": v.Site, "tags": v.Tags, "sched_trace": v.SchedTrace, "replay": path, "reproduced_natively": ok, "native": detail, "stack": v.Stack}
 				reported = append(reported, rec)
 				if !ok {
 					inconclusive = append(inconclusive, fmt.Sprintf("ENGINE-MISMATCH: %s does not reproduce natively (%s)", v.Signature(), detail))
@@ -494,9 +509,9 @@ func run() int {
 	if constantsNote != nil {
 		ev.Coverage["generated_constants_precondition"] = constantsNote
 	}
-	os.MkdirAll(filepath.Join(*verifDir, "evidence"), 0o755)
+	os.MkdirAll(filepath.Join(outDir(), "evidence"), 0o755)
 	b, _ := json.MarshalIndent(ev, "", " ")
-	if err := os.WriteFile(filepath.Join(*verifDir, "evidence", *prop+".json"), b, 0o644); err != nil {
+	if err := os.WriteFile(filepath.Join(outDir(), "evidence", *prop+".json"), b, 0o644); err != nil {
 		die(2, "write evidence: %v", err)
 	}
 	for _, m := range inconclusive {
@@ -655,7 +670,7 @@ func checkGeneratedConstants() (bool, map[string]interface{}, string) {
 	ok := string(ra) == string(rb) && string(fa) == string(committed)
 	diffPath := ""
 	if !ok {
-		diffPath = filepath.Join(*verifDir, "replays", "C16", "generated-constants.go")
+		diffPath = filepath.Join(outDir(), "replays", "C16", "generated-constants.go")
 		os.MkdirAll(filepath.Dir(diffPath), 0o755)
 		os.WriteFile(diffPath, fa, 0o644)
 	}
